@@ -40,7 +40,7 @@ PROBES = ["render_slower_than_frame_duration", "region_ends_on_bottom_row",
           "size_rejected", "not_a_tty", "empty_fill", "zero_frame_indefinite",
           "old_api", "old_api_animation", "tall_still_scrolls",
           "ctrl_c_during_inter_frame_wait", "infinite_animation_ended_by_ctrl_c",
-          "ctrl_c_as_next_frame_write_begins"]
+          "ctrl_c_as_next_frame_write_begins", "ctrl_c_as_first_cursor_return_begins"]
 COMPONENTS = {
     "real": ["Renderable.draw/_animate_/_init_render_", "RenderIterator", "padding.*",
              "BaseImage.draw/_display_animated/_renderer/_format_render", "ImageIterator",
@@ -107,8 +107,17 @@ def run(ch, ctx, fault=None):
         if ctrl_c_at < len(seq) - 1 and ch.bool("at_write_start", 0.35):
             ctrl_c_how[0] = "write_start"
             ctx.probe("ctrl_c_as_next_frame_write_begins")
+        # ... or right after the first frame went out, as the write that takes the cursor
+        # back to the top-left of the region begins: the first frame is on display, the cursor
+        # still at the end of its last line
+        if ch.bool("at_first_cursor_return", 0.2):
+            ctrl_c_how[0] = "first_cursor_return"
+            ctrl_c_at = 0
+            ctx.probe("ctrl_c_as_first_cursor_return_begins")
         seq = seq[:ctrl_c_at + 1]
-        ctx.op("Ctrl-C during the wait after frame #%d (loops=%d)" % (ctrl_c_at, sc.loops))
+        ctx.op("Ctrl-C %s frame #%d (loops=%d)" % (
+            "as the cursor is about to be taken back after" if ctrl_c_how[0] ==
+            "first_cursor_return" else "during the wait after", ctrl_c_at, sc.loops))
         ctx.key("ctrl_c", ctrl_c_at, sc.loops)
     H, W = sc.H, sc.W
     s_anim = max(0, r0 + H - rows)
@@ -160,12 +169,25 @@ def run(ch, ctx, fault=None):
         exc = None
         bytes0 = len(out.sink) + len(out.buf)
         tc0 = k.counts.get("tty.tcsetattr", 0) + k.counts.get("tty.tcsetattr.restore", 0)
+        if ctrl_c_how[0] == "first_cursor_return":
+            real_write = out.write
+            armed = [True]
+
+            def write_until_cursor_return(text):
+                if armed[0] and text.startswith("\r"):
+                    armed[0] = False
+                    raise KeyboardInterrupt
+                return real_write(text)
+
+            out.write = write_until_cursor_return
         try:
             sc.call()
         except Violation:
             raise
         except Exception as e:
             exc = e
+        finally:
+            out.__dict__.pop("write", None)
         k.on_sleep = None
         ctx.op("-> %s; %d frames shown, scrolled %d, cursor (%d,%d)"
                % ("raised %r" % (exc,) if exc else "returned", len(shown), vt.scroll_count,
@@ -199,8 +221,10 @@ def run(ch, ctx, fault=None):
         if sc.too_wide:
             return  # unchecked size that does not fit the width: wrapping, nothing promised
         if animation:
-            check(len(shown) == len(seq), "fewer_frames_shown_than_documented",
-                  dict(info, shown=len(shown), expected=len(seq)), "animate")
+            # (no inter-frame wait is reached when Ctrl-C comes right after the first frame)
+            n_waits = 0 if ctrl_c_how[0] == "first_cursor_return" else len(seq)
+            check(len(shown) == n_waits, "fewer_frames_shown_than_documented",
+                  dict(info, shown=len(shown), expected=n_waits), "animate")
         last = seq[-1]
         top = r0 - s_final
         inf = dict(info, scroll=s_final, frame=last)
